@@ -125,6 +125,16 @@ def r16_1(ctx):
             ok_push = len(pushes) == 1 and any(x[0] == 'field' and x[2] == 'inp' for x in walk(pushes[0][3][1]))
             ctx.check(R, ok_push, 'step-appends-byte', 'a descent step does not append exactly the input byte of the transition it follows', fn=g)
             ok_upd = upd is not None and upd[0] == 'bin' and upd[1] == 'Sub' and any(x[0] == 'field' and x[2] == 'out' for x in walk(upd[3]))
+            if ok_upd:
+                # the output that is subtracted belongs to a transition known to fit (out <= remaining value): it comes out of the
+                # take_while(..).last() selection, or the path compared THAT transition's output with the value
+                outs_ = [x for x in walk(upd[3]) if x[0] == 'field' and x[2] == 'out']
+                T = outs_[0][1] if outs_ else None
+                direct = T is not None and T[0] == 'call' and isinstance(T[1], str) and T[1].endswith("Node::<'f>::transition")
+                if direct:
+                    from rules.streams import norm as _n
+                    fits = [d for d in p.decisions if d[2][0] == 'bin' and d[2][1] in ('Le', 'Lt', 'Ge', 'Gt') and any(_n(x) == _n(T) for x in walk(d[2]) if x[0] == 'call')]
+                    ctx.check(R, bool(fits), 'step-fits', 'a descent step subtracts the output of a transition picked by index without this path having established that its output is <= the remaining value: for a value below every output of the node the subtraction underflows', fn=g)
             ctx.check(R, ok_upd, 'step-consumes-output', 'a descent step does not subtract the output of the transition it follows from the remaining value: %s' % fmt(upd)[:100], fn=g)
     if n_true == 0:
         ctx.undecided(R, 'success-condition', 'no path returning true found in %s' % g.path, fn=g)
